@@ -197,7 +197,13 @@ func (s *store) Get(key string) ([]byte, error) {
 		return nil, fmt.Errorf("failed to get value from main store: %w", err)
 	}
 
-	err = s.cacheStore.Put(key, value)
+	// The cache entry must carry the tags too: GetTags answers from the cache once the key is in it.
+	tags, err := s.mainStore.GetTags(key)
+	if err != nil {
+		return nil, fmt.Errorf("failed to get tags from main store: %w", err)
+	}
+
+	err = s.cacheStore.Put(key, value, tags...)
 	if err != nil {
 		return nil,
 			fmt.Errorf("failed to put the newly retrieved data into the cache store for future use: %w", err)
